@@ -385,4 +385,4 @@ func TestReal(t *testing.T) {
 	})
 }
 
-func TestReplay(t *testing.T) { core.Replay(t, roundtrip, foreign, bigCheck, realCheck) }
+func TestReplay(t *testing.T) { core.Replay(t, roundtrip, foreign, bigCheck, realCheck, nearCheck) }
